@@ -50,6 +50,9 @@ CLAIMED = {
     'C11': dict(cat='proof', technique='Coq theorems (optimiser never touches comment lines; scanner comment/splice theorems) + exact correspondence of the scanner + metamorphic re-layout of generated programs + co-execution under listing options',
                 text='Comment lines are proved untouched by the optimiser; scanner theorems in Proofs/ScanFacts.v when present; every generated program is re-written with comments of many shapes, blank lines, tabs, CR-LF and splices between tokens and must yield identical declarations and instructions; --insert-code / -W must leave -O0 instructions identical and optimised behaviour identical (co-execution). Known finding: // inside a block comment.',
                 ref='DESIGN.md section 6 C11'),
+    'C10': dict(cat='proof', technique='Coq theorems on a Gallina model of the calculator (pest Pratt algorithm + operator table + ?: encoding): all 289 operator pairs grouped as in C for all operand values, unary binds tightest, truth values, division + exact correspondence with parse_calc + reference C evaluator on random expressions',
+                text='Precedence/associativity of the calculator is proved equal to C for every pair of binary operators and all operand values (the == / relational merge is refuted and listed), with the model compared to the real calculator on thousands of random token sequences and all pairs each run; a reference C evaluator checks random expressions printed with minimal parentheses, literals in every form, and constants folded inside statements.',
+                ref='DESIGN.md section 6 C10'),
 }
 
 NOT_YET = {}
